@@ -3,12 +3,12 @@
   counter-examples of C05: injective, dash-free "digests" (unary codes) and a decoder that accepts exactly texts whose only
   `}` is the last character.
 -/
-import Tranp.Lemmas.CacheFS
+import Tranp.Lemmas.CacheFSSim
 
 namespace Tranp.CacheFS
 open Tranp
 
-theorem replicate_sep {n m : Nat} {x y : Str} (h : List.replicate n 'a' ++ 'b' :: x = List.replicate m 'a' ++ 'b' :: y) :
+theorem replicate_sep {n m : Nat} {x y : Str} (h : List.replicate n '\x01' ++ '\x02' :: x = List.replicate m '\x01' ++ '\x02' :: y) :
     n = m ∧ x = y := by
   induction n generalizing m with
   | zero =>
@@ -24,7 +24,7 @@ theorem replicate_sep {n m : Nat} {x y : Str} (h : List.replicate n 'a' ++ 'b' :
       exact ⟨by omega, h2⟩
 
 /-- digest of (grammar mtime, source mtime) -/
-def tid (g t : Nat) : Str := List.replicate g 'a' ++ 'b' :: List.replicate t 'a'
+def tid (g t : Nat) : Str := List.replicate g '\x01' ++ '\x02' :: List.replicate t '\x01'
 
 theorem tid_inj {g t g' t' : Nat} (h : tid g t = tid g' t') : g = g' ∧ t = t' := by
   obtain ⟨h1, h2⟩ := replicate_sep h
@@ -32,12 +32,12 @@ theorem tid_inj {g t g' t' : Nat} (h : tid g t = tid g' t') : g = g' ∧ t = t' 
   have := congrArg List.length h2
   simpa using this
 
-def encChar (c : Char) : Str := List.replicate c.toNat 'a' ++ ['b']
+def encChar (c : Char) : Str := List.replicate c.toNat '\x01' ++ ['\x02']
 def encStr (s : Str) : Str := s.flatMap encChar
-/-- digest of a list of strings: a prefix code over {a, b, c} -/
-def encList (hs : List Str) : Str := hs.flatMap (fun h => encStr h ++ ['c'])
+/-- digest of a list of strings: a prefix code over the characters 1, 2, 3 (small codes keep nested digests short) -/
+def encList (hs : List Str) : Str := hs.flatMap (fun h => encStr h ++ ['\x03'])
 
-theorem encStr_tail {s s' : Str} {x y : Str} (h : encStr s ++ 'c' :: x = encStr s' ++ 'c' :: y) : s = s' ∧ x = y := by
+theorem encStr_tail {s s' : Str} {x y : Str} (h : encStr s ++ '\x03' :: x = encStr s' ++ '\x03' :: y) : s = s' ∧ x = y := by
   induction s generalizing s' with
   | nil =>
     cases s' with
@@ -96,7 +96,7 @@ theorem encList_nodash (hs : List Str) : '-' ∉ encList hs := by
     simp only [encList, List.flatMap_cons, List.mem_append, not_or] at ih ⊢
     exact ⟨⟨encStr_nodash h, by decide⟩, ih⟩
 
-theorem replicate_a_nodash (n : Nat) : '-' ∉ List.replicate n 'a' := by
+theorem replicate_a_nodash (n : Nat) : '-' ∉ List.replicate n '\x01' := by
   intro h; have := List.eq_of_mem_replicate h; revert this; decide
 
 theorem tid_nodash (g t : Nat) : '-' ∉ tid g t := by
@@ -128,34 +128,113 @@ theorem validX_prefix (d : Str) (hd : validX d = true) (k : Nat) (hk : k < d.len
       rw [hl]; simpa using this
     simp [validX, hb]
 
+/-- digest of (grammar path, start, algorithm, grammar mtime) -/
+def pid (gp st al : Str) (g : Nat) : Str := encList [gp, st, al, List.replicate g '\x01']
+
+theorem pid_inj {gp st al gp' st' al' : Str} {g g' : Nat} (h : pid gp st al g = pid gp' st' al' g') :
+    gp = gp' ∧ st = st' ∧ al = al' ∧ g = g' := by
+  have := encList_inj h
+  simp only [List.cons.injEq, and_true] at this
+  obtain ⟨h1, h2, h3, h4⟩ := this
+  refine ⟨h1, h2, h3, ?_⟩
+  have := congrArg List.length h4
+  simpa using this
+
+/-! ### a payload codec for symbol tables: unary code of the characters, terminated by `c` -/
+
+def decodeU : Nat → Str → Str
+  | _, [] => []
+  | n, c :: r => if c = '\x01' then decodeU (n + 1) r else if c = '\x02' then Char.ofNat n :: decodeU 0 r else []
+
+theorem decodeU_run (n m : Nat) (rest : Str) : decodeU n (List.replicate m '\x01' ++ '\x02' :: rest) = Char.ofNat (n + m) :: decodeU 0 rest := by
+  induction m generalizing n with
+  | zero => simp [decodeU]
+  | succ m ih =>
+    simp only [List.replicate_succ, List.cons_append, decodeU, ↓reduceIte]
+    rw [ih]; congr 2; omega
+
+theorem decodeU_enc (t : Str) : decodeU 0 (encStr t ++ ['\x03']) = t := by
+  induction t with
+  | nil => simp [encStr, decodeU]
+  | cons c t ih =>
+    have e : encStr (c :: t) ++ ['\x03'] = List.replicate c.toNat '\x01' ++ '\x02' :: (encStr t ++ ['\x03']) := by
+      simp [encStr, encChar, List.append_assoc]
+    rw [e, decodeU_run]
+    simp only [Nat.zero_add, Char.ofNat_toNat]
+    rw [ih]
+
+def encT (t : Str) : Str := encStr t ++ ['\x03']
+def decT (d : Str) : Option Str := if d = encT (decodeU 0 d) then some (decodeU 0 d) else none
+
+theorem decT_encT (t : Str) : decT (encT t) = some t := by
+  unfold decT encT
+  rw [decodeU_enc]; simp
+
+theorem encStr_noc (s : Str) : '\x03' ∉ encStr s := by
+  induction s with
+  | nil => simp [encStr]
+  | cons c s ih =>
+    simp only [encStr, List.flatMap_cons, List.mem_append, encChar, not_or] at ih ⊢
+    refine ⟨⟨?_, by decide⟩, ih⟩
+    intro h; have := List.eq_of_mem_replicate h; revert this; decide
+
+theorem decT_prefix (t : Str) (k : Nat) (hk : k < (encT t).length) : decT ((encT t).take k) = none := by
+  unfold decT
+  split
+  · rename_i he
+    -- the prefix would end with `c`, but it lies inside `encStr t`
+    have hpre : (encT t).take k = (encStr t).take k := by
+      unfold encT
+      rw [List.take_append_of_le_length]
+      unfold encT at hk
+      simp at hk ⊢; omega
+    have hc : '\x03' ∈ (encT t).take k := by rw [he]; unfold encT; simp
+    rw [hpre] at hc
+    exact absurd (List.mem_of_mem_take hc) (encStr_noc t)
+  · rfl
+
 /-- base instance: unary digests, no imports -/
 def baseSem : Sem where
   treeIdent := tid
-  parserIdent g := List.replicate g 'a'
+  parserIdent := pid
   hash := id
   identL := encList
-  parserBlob _ := ['}']
-  parse := closeX
+  entry p h := encList [p, h]
+  parserBlob _ _ _ _ := ['}']
+  parse _ src := closeX src
   importsOf _ := []
   analyse _ tree vs := closeX (tree ++ vs.flatten)
+  encTab := encT
+  decTab := decT
   view t := t
   render k t _ := k ++ t
   valid := validX
 
-theorem hyp_of (S : Sem) (h1 : S.treeIdent = tid) (h2 : S.parserIdent = fun g => List.replicate g 'a') (h3 : S.hash = id)
-    (h4 : S.identL = encList) (h5 : S.valid = validX) (h6 : ∀ src, ∃ b, S.parse src = closeX b) (h7 : ∀ k t vs, ∃ b, S.analyse k t vs = closeX b) :
+theorem hyp_of (S : Sem) (h1 : S.treeIdent = tid) (h2 : S.parserIdent = pid) (h3 : S.hash = id)
+    (h4 : S.identL = encList) (h5 : S.valid = validX) (h6 : ∀ pz src, ∃ b, S.parse pz src = closeX b)
+    (h7 : ∀ gp st al g, ∃ b, S.parserBlob gp st al g = closeX b) (h8 : S.encTab = encT) (h9 : S.decTab = decT)
+    (h10 : S.entry = fun p h => encList [p, h]) :
     Hyp S where
   tree_inj := by rw [h1]; exact fun _ _ _ _ h => tid_inj h
   tree_nodash := by rw [h1]; exact tid_nodash
-  parser_nodash := by rw [h2]; exact replicate_a_nodash
+  parser_inj := by rw [h2]; exact fun _ _ _ _ _ _ _ _ h => pid_inj h
+  parser_nodash := by rw [h2]; exact fun _ _ _ _ => encList_nodash _
   hash_inj := by rw [h3]; exact fun _ _ h => h
   identL_inj := by rw [h4]; exact fun _ _ h => encList_inj h
   identL_nodash := by rw [h4]; exact encList_nodash
-  valid_parse := by rw [h5]; intro src; obtain ⟨b, hb⟩ := h6 src; rw [hb]; exact validX_closeX b
-  valid_analyse := by rw [h5]; intro k t vs; obtain ⟨b, hb⟩ := h7 k t vs; rw [hb]; exact validX_closeX b
+  entry_inj := by
+    rw [h10]; intro p h p' h' e
+    have := encList_inj e
+    simp only [List.cons.injEq, and_true] at this
+    exact this
+  valid_parse := by rw [h5]; intro pz src; obtain ⟨b, hb⟩ := h6 pz src; rw [hb]; exact validX_closeX b
+  valid_blob := by rw [h5]; intro gp st al g; obtain ⟨b, hb⟩ := h7 gp st al g; rw [hb]; exact validX_closeX b
   prefix_invalid := by rw [h5]; exact validX_prefix
+  dec_enc := by rw [h8, h9]; exact decT_encT
+  dec_prefix := by rw [h8, h9]; exact decT_prefix
 
-theorem baseSem_hyp : Hyp baseSem := hyp_of baseSem rfl rfl rfl rfl rfl (fun src => ⟨src, rfl⟩) (fun _ t vs => ⟨t ++ vs.flatten, rfl⟩)
+theorem baseSem_hyp : Hyp baseSem :=
+  hyp_of baseSem rfl rfl rfl rfl rfl (fun _ src => ⟨src, rfl⟩) (fun _ _ _ _ => ⟨[], rfl⟩) rfl rfl rfl
 
 /-! ### witnesses used by the `example`s and the counter-examples -/
 
@@ -173,7 +252,7 @@ def cxSem : Sem := { baseSem with
   render := fun k tree db => k ++ tree ++ ((List.lookup k db).getD []) }
 
 theorem cxSem_hyp : Hyp cxSem :=
-  hyp_of cxSem rfl rfl rfl rfl rfl (fun src => ⟨src, rfl⟩) (fun _ t vs => ⟨t ++ vs.flatten, rfl⟩)
+  hyp_of cxSem rfl rfl rfl rfl rfl (fun _ src => ⟨src, rfl⟩) (fun _ _ _ _ => ⟨[], rfl⟩) rfl rfl rfl
 
 def cxWorld : World := { order := [['a'], ['b'], ['c']] }
 /-- build, change the leaf `c`, (then build again) -/
@@ -184,23 +263,13 @@ theorem cxHist_ok : ∀ op ∈ cxHist, OpOK op := by
   simp only [cxHist, List.mem_cons, List.not_mem_nil, or_false] at hop
   rcases hop with rfl | rfl | rfl | rfl | rfl <;> first | trivial | (exact ⟨by decide, by decide⟩)
 
-theorem add_last (ds : List Str) (xs : List Str) (d : Str) :
-    d ∈ (xs ++ [d]).foldl (fun ds a => if ds.contains a then ds else ds ++ [a]) ds := by
-  rw [List.foldl_append]
-  simp only [List.foldl_cons, List.foldl_nil]
-  split
-  · rename_i h; simpa using h
-  · simp
-
-theorem mkdirs_mem (w : World) (d : Str) : d ∈ (w.mkdirs d).dirs := add_last _ _ _
+theorem cxHist_plain : (∀ op ∈ cxHist, NoGrammar op) ∧ (∀ op ∈ cxHist, NoDamage op) := by
+  constructor <;> (intro op hop; simp only [cxHist, List.mem_cons, List.not_mem_nil, or_false] at hop
+                   rcases hop with rfl | rfl | rfl | rfl | rfl <;> trivial)
 
 theorem cxHist_acyclic : Acyclic cxSem cxWorld cxHist := by
   refine ⟨trivial, trivial, trivial, ?_, trivial, trivial⟩
   show (run cxSem _ true).cyc = false
   decide +kernel
-
-def srcInt : Str → Str := fun k => if k = ['a'] then [c4] else if k = ['b'] then [c3] else [c1]
-def srcStr : Str → Str := fun k => if k = ['a'] then [c4] else if k = ['b'] then [c3] else [c2]
-
 
 end Tranp.CacheFS
